@@ -238,6 +238,33 @@ structure ConnIf (κ : Type) where
   /-- `connection::set_response_headers` -/
   setHeaders : κ → Headers → κ
 
+/-- what a response does to its connection, in order (the only feedback it takes from the connection is
+the success flag of a write; after a failed write it never touches the connection again) -/
+inductive WEv where
+  | send (bs : Bytes) (eof : Bool)   -- `do_write`: `connection::write` / `nonblocking_write`
+  | hdr (h : Headers)                -- `connection::set_response_headers`
+  | asyncFlush                       -- `connection::async_write_response` after `flush_async_chunk` succeeded
+  deriving Repr, DecidableEq, Inhabited
+
+abbrev Trace := List WEv
+
+/-- a connection that records what it is asked to do and accepts every write -/
+def traceIf : ConnIf Trace :=
+  { send := fun t bs e => (t ++ [WEv.send bs e], true), setHeaders := fun t h => t ++ [WEv.hdr h] }
+
+def WEv.asSend : WEv → Option (Bytes × Bool)
+  | .send bs e => some (bs, e)
+  | _ => none
+
+def WEv.asHdr : WEv → Option Headers
+  | .hdr h => some h
+  | _ => none
+
+/-- the `(bytes, eof)` calls of a trace, in order -/
+def Trace.sends (t : Trace) : List (Bytes × Bool) := t.filterMap WEv.asSend
+/-- the header sets handed over, in order -/
+def Trace.hdrs (t : Trace) : List Headers := t.filterMap WEv.asHdr
+
 structure Dev where
   /-- `output_` and `pptr() - pbase()`; `epptr() - pbase()` is `vec.length` throughout -/
   vec : Bytes := []
@@ -267,7 +294,7 @@ def Dev.write {κ : Type} (I : ConnIf κ) (d : Dev) (k : κ) (out : List Bytes) 
   if d.dead then (d, k, false)
   else
     let sendEof := d.final && !d.eofSend
-    let d := { d with eofSend := sendEof }
+    let d := { d with eofSend := d.eofSend || sendEof }     -- `eof_send_ = eof_send_ || send_eof`
     if d.rawMode && !d.raw.done then
       -- the gathered pieces go through the header parser (the code loops over them; the parser is
       -- insensitive to how the bytes are cut, `RawParser.consume_append`)
